@@ -1,5 +1,6 @@
 import ColoVerif.Model.Transp1d
 import ColoVerif.Model.Transp1dLocal
+import ColoVerif.Model.Transp1dChecks
 import Driver.Common
 /-
 Driver for C14: replays the harness' operations on the Transportation1d model.
@@ -16,6 +17,15 @@ Driver for C14: replays the harness' operations on the Transportation1d model.
                                        instance pass `ivCertOk` with the sink prices computed here
                                        (closed formula: min of the left- and right-anchored chain
                                        prices; untrusted computation, trusted checker)
+  full                              -> full i j a ..  | full throw:runtime_error <site> | full err:<e>
+                                       (`solveFull`: `solve()` WITH its self-checks; <site> names the
+                                       message of the exception, `Model/Transp1dChecks.lean`)
+  rpb <nu> <nv> <ns> <nd> u.. v.. s.. d..  -> (nothing; sets a problem whose four vectors may have
+                                       different sizes)
+  chk                               -> chk ok | chk throw:runtime_error <site>    `Transportation1d::check()`
+  schk                              -> schk ok | …   `Transportation1dSolver(u,v,s,d).check()` (no sorter)
+  val <k> i j a ..                  -> val ok | …    `Transportation1d::checkSolutionValid(sol)`
+  opt <k> i j a ..                  -> opt ok | …    `Transportation1dSolver(u,v,s,d).checkSolutionOptimal(sol)`
 -/
 open ColoVerif.Transp1d Driver
 
@@ -24,6 +34,41 @@ def showErr : Err → String
   | .invalid => "throw:runtime_error"
   | .divByZero => "err:divByZero"
   | .outOfFuel => "err:outOfFuel"
+
+def showSite : Site → String
+  | .srcPosSize => "srcPosSize"
+  | .snkPosSize => "snkPosSize"
+  | .supSize => "supSize"
+  | .demSize => "demSize"
+  | .supNeg => "supNeg"
+  | .demNeg => "demNeg"
+  | .supGtDem => "supGtDem"
+  | .totSupSize => "totSupSize"
+  | .totDemSize => "totDemSize"
+  | .tooManyPos => "tooManyPos"
+  | .srcUnsorted => "srcUnsorted"
+  | .snkUnsorted => "snkUnsorted"
+  | .supZero => "supZero"
+  | .demZero => "demZero"
+  | .allocNonPos => "allocNonPos"
+  | .supNotMet => "supNotMet"
+  | .demExceeded => "demExceeded"
+  | .improvingRight => "improvingRight"
+  | .improvingLeft => "improvingLeft"
+
+def showCkErr : CkErr → String
+  | .thrown s => "throw:runtime_error " ++ showSite s
+  | .model e => showErr e
+  | .sentinel => "err:sentinel"
+
+def showCk (tag : String) : K Unit → String
+  | .ok _ => tag ++ " ok"
+  | .error e => tag ++ " " ++ showCkErr e
+
+/-- `<k> i j a i j a ..` -/
+def parsePlan : List String → Plan
+  | i :: j :: a :: rest => (i.toNat!, j.toNat!, int! a) :: parsePlan rest
+  | _ => []
 
 def showNats (l : List Nat) : String := " ".intercalate (l.map toString)
 
@@ -148,6 +193,22 @@ def step (pb : Problem) : List String → Problem × List String
       (pb, [if certOk pb p al be then "cert ok" else "cert FAIL"])
     | .error e => (pb, ["cert " ++ showErr e])
   | ["loc"] => (pb, [locOp pb])
+  | ["full"] =>
+    match solveFull pb with
+    | .ok p => (pb, [line "full" (showPlan p)])
+    | .error e => (pb, ["full " ++ showCkErr e])
+  | "rpb" :: nu :: nv :: ns :: nd :: rest =>
+    let nu := nu.toNat!
+    let nv := nv.toNat!
+    let ns := ns.toNat!
+    let nd := nd.toNat!
+    let xs := ints rest
+    (⟨xs.take nu, (xs.drop nu).take nv, (xs.drop (nu + nv)).take ns, (xs.drop (nu + nv + ns)).take nd⟩, [])
+  | ["chk"] => (pb, [showCk "chk" (checkInput pb)])
+  | ["schk"] => (pb, [showCk "schk" (solverCheck (mkSolver pb.u pb.v pb.s pb.d) 0)])
+  | "val" :: _ :: rest => (pb, [showCk "val" (checkSolutionValid pb (parsePlan rest))])
+  | "opt" :: _ :: rest =>
+    (pb, [showCk "opt" (checkSolutionOptimal (mkSolver pb.u pb.v pb.s pb.d) (parsePlan rest))])
   | [] => (pb, [])
   | ws => (pb, ["bad-op " ++ " ".intercalate ws])
 
